@@ -63,17 +63,19 @@ def main(tier, replay_payload=None):
     if replay_payload is not None:
         if replay_payload.get("family") == "faulted":
             from engine import conc
-            return conc.replay_schedule(FAULTED_ARGS, faulted_for(tier), replay_payload["k"], replay_payload["log"],
-                                        replay_payload["bound"], replay_payload["clauses"][0],
-                                        fault_at=replay_payload.get("fault_at"))
+            keep = [0, 2, 3] if tier == "thorough" else [0]
+            return conc.replay_schedule(FAULTED_ARGS, lambda w: [sc for n_, sc in enumerate(faulted_for("thorough")(w)) if n_ in keep],
+                                        replay_payload["k"], replay_payload["log"], replay_payload["bound"],
+                                        replay_payload["clauses"][0], fault_at=replay_payload.get("fault_at"))
         return fault.replay_fault(w_args, menu_fn, replay_payload["vals"], replay_payload["clauses"])
     run = report.Run("C13", tier, technique="pathsym with symbolic fault point, stickiness and errno over the file-system "
                      "model (one fault per call); obligations by z3 validity; passthrough replay with a real OSError")
     def replayer(p):
         if p.get("family") == "faulted":
             from engine import conc
-            return conc.replay_schedule(FAULTED_ARGS, faulted_for(tier), p["k"], p["log"], p["bound"], p["clauses"][0],
-                                        fault_at=p.get("fault_at"))
+            keep = [0, 2, 3] if tier == "thorough" else [0]
+            return conc.replay_schedule(FAULTED_ARGS, lambda w: [sc for n_, sc in enumerate(faulted_for("thorough")(w)) if n_ in keep],
+                                        p["k"], p["log"], p["bound"], p["clauses"][0], fault_at=p.get("fault_at"))
         return fault.replay_fault(w_args, menu_fn, p["vals"], p["clauses"])
     run.replayer = replayer
     nerr = 3 if tier == "thorough" else 1
@@ -85,8 +87,10 @@ def main(tier, replay_payload=None):
     # pid is retrievable with the right bytes) whatever the failing call cleaned up
     from engine import conc
     from props.C07 import fold as sched_fold
-    nf = 2 if tier == "thorough" else 1
-    outs = conc.explore_scenarios(FAULTED_ARGS, lambda w: faulted_for(tier)(w)[:nf], 1, with_fault=True)
+    # (not the delete_object || store_object pair: without any fault it already is known finding D6 of C07)
+    keep = [0, 2, 3] if tier == "thorough" else [0]
+    outs = conc.explore_scenarios(FAULTED_ARGS, lambda w: [sc for n_, sc in enumerate(faulted_for("thorough")(w)) if n_ in keep],
+                                  1, with_fault=True)
     before = set(run.failures)
     sched_fold(run, outs, "C13:", 1)
     for sig in set(run.failures) - before:
